@@ -69,6 +69,15 @@ func (ex *Exec) fsm(st *State) *fsModel {
 	for _, p := range m.order {
 		m.addPath(p)
 	}
+	// side files a replacement strategy might use (all absent unless the harness creates them); registering them up
+	// front keeps the shape of the file-system object fixed
+	for _, p := range m.order {
+		if !m.tplDirs[p] {
+			for _, suf := range []string{".new", ".tmp", ".bak", "~"} {
+				m.addPath(p + suf)
+			}
+		}
+	}
 	var fields []Value
 	for range m.paths {
 		fields = append(fields, absentNode())
@@ -183,6 +192,9 @@ func registerFSStubs(ex *Exec) {
 			pok := parentOK(ex, st, p)
 			notExist = smt.And(isAbsent, smt.Not(pok))
 			errCond = smt.Or(notExist, isDir) // writing to a directory fails
+			if flags&os.O_EXCL != 0 {
+				errCond = smt.Or(errCond, smt.Not(isAbsent)) // O_EXCL: the file must not exist
+			}
 			// effect: create if absent, truncate if asked
 			newN := n
 			created := &StructV{F: append([]Value{smt.Const(8, fsFile), bv64(0)}, absentNode().F[2:]...)}
@@ -280,6 +292,24 @@ func registerFSStubs(ex *Exec) {
 		dirN := &StructV{F: append([]Value{smt.Const(8, fsDir), bv64(0)}, absentNode().F[2:]...)}
 		ex.fsSetNode(st, i, mergeV(okC, dirN, n).(*StructV))
 		return mergeV(okC, Value(Nil), mergeV(smt.And(isAbsent, smt.Not(pok)), ex.fsErr(st, true), ex.fsErr(st, false)))
+	}
+	S["os.Rename"] = func(ex *Exec, st *State, site ssa.Instruction, fn *ssa.Function, args []Value) Value {
+		from := concreteStrArg(args[0], "os.Rename old path")
+		to := concreteStrArg(args[1], "os.Rename new path")
+		i, n := ex.fsNodeOf(st, from)
+		j, t := ex.fsNodeOf(st, to)
+		isFile := smt.Eq(nodeKind(n), smt.Const(8, fsFile))
+		okC := smt.And(isFile, smt.And(parentOK(ex, st, to), smt.Not(smt.Eq(nodeKind(t), smt.Const(8, fsDir)))))
+		ex.fsSetNode(st, j, mergeV(okC, n, t).(*StructV))
+		ex.fsSetNode(st, i, mergeV(okC, absentNode(), n).(*StructV))
+		return mergeV(okC, Value(Nil), mergeV(smt.Eq(nodeKind(n), smt.Const(8, fsAbsent)), ex.fsErr(st, true), ex.fsErr(st, false)))
+	}
+	S["os.Remove"] = func(ex *Exec, st *State, site ssa.Instruction, fn *ssa.Function, args []Value) Value {
+		p := concreteStrArg(args[0], "os.Remove path")
+		i, n := ex.fsNodeOf(st, p)
+		isFile := smt.Eq(nodeKind(n), smt.Const(8, fsFile))
+		ex.fsSetNode(st, i, mergeV(isFile, absentNode(), n).(*StructV))
+		return mergeV(isFile, Value(Nil), mergeV(smt.Eq(nodeKind(n), smt.Const(8, fsAbsent)), ex.fsErr(st, true), ex.fsErr(st, false)))
 	}
 	S["io/fs.WalkDir"] = func(ex *Exec, st *State, site ssa.Instruction, fn *ssa.Function, args []Value) Value {
 		m := ex.fsm(st)
